@@ -150,6 +150,7 @@ class Interp:
         self.loops = loops or {}  # (qualname, ordinal) -> loop annotation
         self.depth = 0
         self.called = []          # contracts used (for evidence)
+        self.auto_inlined = set()  # package functions without a contract, executed as part of the caller
         from . import lib
         self.lib = lib.Library(self)
         state.len_hook = lambda obj: self.lib.b_len(obj)
@@ -185,13 +186,23 @@ class Interp:
         if q in self.inline and self.depth > 0:
             return self.run_body(fn, args, kwargs)       # verified as part of the caller (listed in evidence)
         if self.registry is not None:
-            c = self.registry.lookup(fn, args, self.views)
+            c = self.registry.lookup(fn, args, self.views, kwargs)
             if c is not None and not (self.top is not None and self.top[0] is fn and self.depth == 0):
                 self.called.append(c.name)
                 return c.apply(self, fn, args, kwargs)
         if self.depth == 0 or q in self.inline or fn.__name__ == '<lambda>':
             return self.run_body(fn, args, kwargs)
-        raise OutOfSubset('call to %s: no contract and not inlined' % q)
+        # a helper of the package with no contract of its own (e.g. one a refactoring just extracted): its real body is
+        # executed as part of the caller - more precise than any contract; bounded depth, no recursion
+        stack = self.__dict__.setdefault('inline_stack', [])
+        if fn not in stack and len(stack) < 6 and self.depth < 12:
+            stack.append(fn)
+            self.auto_inlined.add(q)
+            try:
+                return self.run_body(fn, args, kwargs)
+            finally:
+                stack.pop()
+        raise OutOfSubset('call to %s: no contract, recursive or too deep to inline' % q)
 
     def bind(self, fn, node, args, kwargs):
         a = node.args
